@@ -170,7 +170,9 @@ CHECKS = {
             'callbacks that raise, per-call latencies so that members vanish between listing and reading) against the real '
             'ServerSet and the real kazoo DataWatch/ChildrenWatch recipes on an in-process fake Kazoo client; at quiescence the '
             'join/leave log replayed in order equals the members in the tree, no double join/leave, and a real HeapBalancerSink '
-            'behind ZooKeeperServerSetProvider knows exactly the tree\'s endpoints.',
+            'behind ZooKeeperServerSetProvider knows exactly the tree\'s endpoints; optionally a second balancer whose provider '
+            'comes from ScalesUriParser for the same zk:// URI (one of the two is closed mid-history) and a greenlet that takes '
+            'get_members() snapshots every millisecond throughout.',
             'fake Kazoo client (no session loss); one callback greenlet that survives callback exceptions',
             'Hypothesis op-list state machine on fake Kazoo + real kazoo recipes vs znode-tree model',
             '5/C19', 'simkernel'),
